@@ -61,12 +61,13 @@ CHECKS = [
  {"id": "C12",
   "text": "Coq theorems about a mirror of the %grmtools section parser for ALL strings: total with fuel 2|src|+4, never panics, a value or a "
           "non-empty error list, every span well-formed on char boundaries (the pinned code is refuted: C12_header_total_refuted, "
-          "C12_header_orig_diverges, C12_header_orig_panics; repaired). The yacc and lex parsers' totality is carried by the C10/C11 mirrors' "
-          "theorems (lex: C11_lex_parse_total) and by mass differential: ~32k (quick) near-valid strings per run through all three real "
+          "C12_header_orig_diverges, C12_header_orig_panics; repaired). Totality of the yacc and lex parsers: C12_yacc_parse_total "
+          "(whole ASTWithValidityInfo::new mirror, fuel |src|+1, never Panic) and C12_lex_parse_total / C12_lex_errs_nonempty, proved about "
+          "the C10/C11 mirrors which are tied to the code by transcript equality. Plus mass differential: ~32k (quick) near-valid strings per run through all three real "
           "parsers under catch_unwind and a watchdog, every error/warning span checked against is_char_boundary.",
   "design_ref": "DESIGN.md §5 C12, §5E",
-  "note": _TB + "for the yacc parser the totality claim rests on execution (and on the C10 mirror tie), not on a closed Coq theorem: partial.",
-  "technique": "Coq proof (header parser mirror total, spans well-formed) + impl/mirror differential + panic/hang/bad-span oracle on mutated specifications"},
+  "note": _TB + "span well-formedness of yacc/lex errors and warnings is checked by execution on every case, not proved; native stack depth is outside the model.",
+  "technique": "Coq proof (header, yacc and lex parser mirrors total; header spans well-formed) + impl/mirror differential + panic/hang/bad-span oracle on mutated specifications"},
  {"id": "C15",
   "text": "Coq permutation theorems on mirrors whose hash-iteration orders are explicit parameters: Eco implicit-token numbering (pinned code "
           "refuted and shown order-sensitive for every list of >= 2 tokens; repaired variant order-insensitive), avoid_insert bits, Pager gc "
@@ -96,6 +97,55 @@ CHECKS = [
   "design_ref": "DESIGN.md §5 C18",
   "note": _TB + "file contents are abstract descriptors in the model (bijection with bytes checked per run); mtimes are set by the harness.",
   "technique": "Coq proof (invariant over build histories on a mirror of the builders) + history replay differential against the real builders"},
+ {"id": "C03",
+  "text": "Coq theorems for ALL states, precedence assignments and BOTH hash iteration orders (as list parameters): the mirror of the "
+          "StateTable::new fold yields in every cell the action of a declarative Yacc rule (earliest production among reductions; shift vs "
+          "reduce by level then associativity, %nonassoc = error, shift when a side lacks precedence), reports exactly the default-resolved "
+          "shift/reduce triples and k-1 well-formed reduce/reduce pairs per cell, accept/reduce = hard error; precedence levels follow "
+          "declaration order, production precedence = %prec token else last token; the %expect rule (pinned code refuted, repaired). Tie: "
+          "every cell and conflict list of every generated table vs the extracted spec on the implementation's own items/edges; TP/PP vs "
+          "declarations; CTParserBuilder Ok/Err vs the %expect spec.",
+  "design_ref": "DESIGN.md §5 C03",
+  "note": _TB + "which k-1 reduce/reduce pairs are listed for k>2 candidates is only constrained (count, membership, losers), as the property leaves it open.",
+  "technique": "Coq proof (mirror of table population = declarative cell spec for every iteration order) + exhaustive per-cell differential"},
+ {"id": "C10",
+  "text": "Coq theorems on two mirrors. (b) text->AST: character-level mirror of YaccParser + validation, total for ALL sources "
+          "(yacc_parse_total), white space/comment skipping (refuted for the pinned code, proved for the repaired scanner), lexical round "
+          "trips, action spans (refuted; repair blocked by a pinned test, known finding). (a) AST->grammar: build_faithful (exact shape of "
+          "the indexed grammar for every well-formed AST), build_total, dense in-range indices for the repaired constructor (pinned code "
+          "refuted). Tie: whole-transcript equality impl vs mirror on printed, mutated and truncated sources; print-then-parse oracle over "
+          "abstract grammars x 7 layouts; every accessor on every valid index vs the mirror.",
+  "design_ref": "DESIGN.md §5 C10",
+  "note": _TB + "the whole-file round-trip law parse(print lay ag) = ag is decided by the oracle per generated (grammar, layout), not proved: partial.",
+  "technique": "Coq proof on mirrors of the yacc parser and grammar builder (totality, faithfulness, ranges, lexical round trips) + print-then-parse oracle + transcript differential"},
+ {"id": "C13",
+  "text": "Coq theorems for the logic Coq can carry: the $-substitution scanner mirror meets its tokenisation spec for ALL action texts "
+          "(never panics), the wrapper's argument unpacking = map over the production's symbols ($k denotes the k-th, Ok iff not faulty), "
+          "flag regeneration = default filling. The equivalence of the two pipelines (compile-time module vs run-time build) is decided by "
+          "execution per generated program: generate, include!, compile once with rustc, run, and compare lexemes, values, errors and "
+          "repair sets with the run-time pipeline and with the model's predictions.",
+  "design_ref": "DESIGN.md §5 C13",
+  "category": "proof",
+  "note": _TB + "rustc, quote!/prettyplease and the generated text are outside the model: pipeline equivalence is translation validation by compile-and-run (partial).",
+  "technique": "Coq proof of the scanner/wrapper/flag models + compile-and-run differential of generated modules against the run-time pipeline"},
+ {"id": "C14",
+  "text": "Coq theorems: codec_roundtrip for ALL schemas/values/configurations (fixint and varint), decode soundness, canonicity (fixint; "
+          "varint refuted as in wincode, minimal-preimage variant proved), and reconstitute never fails on the schemas GENERATED from the "
+          "Rust sources on every run (translator tools/schema_of_rust.py; a skipped/retyped/lost field breaks schema_wf and the proof gate). "
+          "Tie: the extracted decoder consumes the implementation's bytes completely and re-encodes them identically for every generated "
+          "grammar x {fix,var} x {u8,u16,u32}; decoded fields equal API answers; every public query and parse on the reconstituted objects "
+          "equals the originals.",
+  "design_ref": "DESIGN.md §5 C14",
+  "note": _TB + "the translator (regex reader of the derive'd structs and vendored crates) is trusted; strings are byte lists; wincode's layout was read off the vendored crate.",
+  "technique": "Coq proof (codec round trip over a schema regenerated from the source) + byte-level and query-level differential"},
+ {"id": "C16",
+  "text": "Coq theorems: coherent_b is sound for the seven clauses of the statement (actions/shifts lists, targets = graph edges, "
+          "core_reduces per (rule,length), reduce-only flag, reachability, closed = LR(1) closure of core), views computed from final "
+          "cells are coherent for ANY cells, the mirror's state_actions = non-error cells plus %nonassoc-erased ones (refutation of the "
+          "pinned code; repaired). Tie: coherent_b and an independent re-computation on every state/token/rule of every generated table.",
+  "design_ref": "DESIGN.md §5 C16",
+  "note": _TB + "reachability and closure clauses of coherent_b are proved sound only; completeness is covered by the independent Python re-computation.",
+  "technique": "Coq proof (verified coherence validator + mirror of the view computation) + exhaustive per-state differential"},
 ]
 
 _PENDING = "check not built yet in this round (work in progress; see DESIGN.md §10 build order)"
